@@ -171,7 +171,7 @@ pub open spec fn opt(cond: bool, s: Seq<u8>) -> Seq<u8> { if cond { s } else { S
 /// firstlineno lnotab; 3.8-3.10: + posonlyargcount after argcount; 3.11: nlocals dropped, varnames/freevars/cellvars replaced by
 /// localsplusnames + localspluskinds, + qualname after name, + exceptiontable after the line table
 pub open spec fn layout_a(c: CodeObj, minor: Option<u8>) -> Seq<u8> {
-    seq![0x63u8] + le32(c.argcount as int) + opt(minor_ge(minor, 8), le32(c.posonlyargcount as int))
+    seq![0xE3u8] + le32(c.argcount as int) + opt(minor_ge(minor, 8), le32(c.posonlyargcount as int))   // TYPE_CODE | FLAG_REF, as CPython writes a code object
 }
 pub open spec fn layout_b(c: CodeObj, minor: Option<u8>) -> Seq<u8> {
     layout_a(c, minor) + le32(c.kwonlyargcount as int) + opt(!minor_ge(minor, 11), le32(c.nlocals as int))
